@@ -114,14 +114,14 @@ PLAN = {
         "kani": True,
         "engine": "kani-scratch",
         "technique": "per-type contract harnesses (Kani/CBMC) on the real PartialEq/Hash/Clone impls: eq <=> abstract value equal, hash and clone functions of the abstract value, in every reachable cache state",
-        "claim": "Partial, bounded: for RawSource, RawStringSource, RawBufferSource, OriginalSource the real ==, Hash and Clone are functions of the abstract value "
+        "claim": "Partial, bounded: for RawSource, RawStringSource, RawBufferSource, OriginalSource, SourceMapSource the real ==, Hash and Clone are functions of the abstract value "
                  "(caches dropped) under every interleaving of observer calls on either operand; ReplaceSource == and clone ignore the lazy-sort cache in every state satisfying the K1 invariant. "
-                 "Data from a fixed catalogue (symbolic strings are intractable for CBMC here). ReplaceSource::hash, ConcatSource, CachedSource, SourceMapSource and the dyn Source layer are not covered.",
+                 "Data from a fixed catalogue (symbolic strings are intractable for CBMC here). ReplaceSource::hash beyond n = 1, ConcatSource, CachedSource and the dyn Source layer are not covered.",
         "note": "Bounded stand-in, not a proof: exhaustive in cache histories, sampled in data. Kani/CBMC trusted; harnesses are child modules of the real files in a scratch copy.",
         "trusted_base": ["Kani 0.68 + CBMC 6.11 (bit-precise symbolic execution of the compiled MIR of the real impls)", "the abstract-value functions written in the harnesses (kani/eq_hash_*.rs)"],
         "assumptions": ["data catalogue is representative (ASCII / multi-byte / invalid UTF-8; equal and unequal pairs)"],
-        "not_covered": ["ReplaceSource::hash (CBMC out of memory at 14 GB even for n = 2)", "ConcatSource (no verdict in 10 min)", "CachedSource (Kani compiler ICE on DashMap)",
-                        "SourceMapSource", "Box<dyn Source> / dyn_eq / dyn_hash layer", "observers other than eq/hash/clone"],
+        "not_covered": ["ReplaceSource::hash for n >= 2 (CBMC out of memory at 14 GB)", "ConcatSource (no verdict in 15 min even with two static children)", "CachedSource (Kani compiler ICE on DashMap)",
+                        "Box<dyn Source> / dyn_eq / dyn_hash layer", "observers other than eq/hash/clone"],
         "design_ref": "DESIGN.md §4/C14",
     },
 }
